@@ -140,7 +140,7 @@ def boundary_witnesses(fa, case, r, tp, out, t0):
             break
         s = z3.Solver()
         s.add(*base, g)
-        if checked(s, 1500) == z3.sat:
+        if checked(s, 4000) == z3.sat:
             out["witnesses"].append(witness(fa, case, r, s.model(), "boundary"))
             n += 1
 
